@@ -25,6 +25,16 @@ PID = "C10"
 LEVEL = "model_checking"
 CRATE = "harness-pub"
 
+# Quirks of the pinned code that the specification models through constants
+# (see the CONSTANTS of PubServer.tla / RepoFiles.tla).  Flip a value when
+# the corresponding repair lands in /repo; the static spec/*.cfg files carry
+# the same values.
+CODE_VARIANT = {
+    "MaxNrEquality": "TRUE",        # rrdp.rs:440  keep == max_nr - 1
+    "TruncateOnCreate": "FALSE",    # file.rs:84-113 no O_TRUNC
+    "RemoveOldFirst": "FALSE",      # rsync.rs:118-131 stale old/ stays
+}
+
 RETENTION = {"min_nr": 0, "max_nr": 2, "min_age": "zero", "max_age": "inf"}
 
 # handles / URIs of the generator configurations (see spec/PubNames.tla)
@@ -44,6 +54,7 @@ GEN_TEMPLATE = """CONSTANTS
   MaxNr = 2
   MinAge = "zero"
   MaxAge = "inf"
+  MaxNrEquality = {variant[MaxNrEquality]}
   MaxSerial = 99
   MaxSession = 99
   DeltaChoices <- {deltas}
@@ -66,6 +77,7 @@ TRACE_TEMPLATE = """CONSTANTS
   MaxNr = 2
   MinAge = "zero"
   MaxAge = "inf"
+  MaxNrEquality = {variant[MaxNrEquality]}
   MaxSerial = 99
   MaxSession = 99
   DeltaChoices = {{}}
@@ -78,7 +90,8 @@ CHECK_DEADLOCK FALSE
 
 INVARIANTS = ["TraceTypeOK", "TraceStagedApplies", "TraceUnregistered",
               "ListIsCurrentPlusStaged", "NoPanic", "StatsAgree",
-              "DetailsAgree", "RepliesAgree", "IsolationPublished"]
+              "DetailsAgree", "RepliesAgree", "PublishedAgrees",
+              "IsolationPublished"]
 PROPERTIES = ["TraceAppliedIff", "TraceDeltaAtomic", "TraceUnknownRefused",
               "TraceIsolation", "TraceRemoveWithdrawsExactlyOwn",
               "TraceUpdatePublishesViews", "TraceSerialPlusOne",
@@ -95,7 +108,7 @@ def trace_cfg(chk, exclude=()):
     name = "trace_" + ("_".join(sorted(exclude)) or "all") + ".cfg"
     path = os.path.join(chk.out, name)
     if not os.path.exists(path):
-        write_cfg(path, TRACE_TEMPLATE.format(
+        write_cfg(path, TRACE_TEMPLATE.format(variant=CODE_VARIANT, 
             invariants="\n".join(f"INVARIANT {i}" for i in INVARIANTS
                                  if i not in exclude),
             properties="\n".join(f"PROPERTY {p}" for p in PROPERTIES
@@ -127,12 +140,13 @@ def model_runs(chk, tier):
     if tier == "thorough":
         runs.append(("MC_PubServer_flat.cfg", 1800, None))
         runs.append(("MC_PubServer_three2.cfg", 2400, None))
-        runs.append(("MC_PubServer_three3.cfg", 3000, None))
     expected_hits = []
     taken = {}
     for cfg, timeout, expect in runs:
+        # per-action coverage slows TLC down a lot: smallest run only
         res = vlib.run_tlc("MC_PubServer", cfg, chk.out, workers=12,
-                           timeout=timeout, coverage=(expect is None))
+                           timeout=timeout,
+                           coverage=(cfg == "MC_PubServer_nested.cfg"))
         chk.add_tlc(cfg, res)
         for a, n in action_counts(res.out).items():
             taken[a] = taken.get(a, 0) + n
@@ -169,7 +183,7 @@ def gen_cfg(chk, name, depth, bfs=False):
     pubs, uris = GEN_CFGS[name]
     path = os.path.join(chk.out, f"gen_{name}_{depth}{'_bfs' if bfs else ''}"
                                  ".cfg")
-    write_cfg(path, GEN_TEMPLATE.format(
+    write_cfg(path, GEN_TEMPLATE.format(variant=CODE_VARIANT, 
         pubs=pubs, uris=uris, depth=depth,
         deltas="Deltas1" if bfs else "Deltas2",
         streak=99 if bfs else 2,
@@ -263,9 +277,8 @@ def culprit(rej):
         if "scheme" in spell and len(spell) > 1:
             # upper-case scheme with lower-case host next to any other
             # spelling (the others are interchangeable for the code)
-            parts.append("spellings=scheme+other")
-        else:
-            parts.append("spellings=" + "+".join(sorted(spell)))
+            return "Delta:spellings=scheme+other"
+        # (spellings without that one are interchangeable: not recorded)
     elif kind in ("Add", "Remove", "List"):
         parts.append(f"reply={'ok' if ev.get('ok') else 'refused'}")
     # a URI held by two publishers, and how their handles relate
@@ -273,7 +286,8 @@ def culprit(rej):
     for x in ev.get("lists", []):
         for o in x.get("objs", []):
             held.setdefault(json.dumps(o[0]), []).append(x["p"])
-    shared = [ps for ps in held.values() if len(ps) > 1]
+    shared = [ps for ps in held.values()
+              if len({json.dumps(p) for p in ps}) > 1]
     if shared and rej["violated"] == "IsolationPublished":
         nested = any(is_prefix(p, q) or is_prefix(q, p)
                      for ps in shared for p in ps for q in ps if p != q)
@@ -289,14 +303,16 @@ def culprit(rej):
     return ":".join(parts)
 
 
-def run_and_validate(chk, behaviours, tag, exclude=(), revalidate=True):
+def run_and_validate(chk, behaviours, tag, exclude=(), revalidate=True,
+                     max_rejections=25):
     if not behaviours:
         return [], []
     trace = vlib.run_harness("run-pub", behaviours, f"{chk.out}/{tag}",
                              crate=CRATE)
     cfg = trace_cfg(chk, exclude)
     validated, rejections, states = vlib.validate_all(
-        "PubServerTrace", cfg, trace, f"{chk.out}/{tag}", max_rejections=40)
+        "PubServerTrace", cfg, trace, f"{chk.out}/{tag}",
+        max_rejections=max_rejections)
     chk.cov["traces_validated_against_impl"] += validated
     chk.cov["trace_states"] = chk.cov.get("trace_states", 0) + states
     for seg in vlib.split_behaviours(trace):
@@ -418,8 +434,20 @@ def self_test(chk, trace):
 
 # --------------------------------------------------------------------------
 
+def extra_findings(chk):
+    """Test aid: VERIF_EXTRA_FINDINGS=<json file> adds entries in the format
+    of known-findings.json for this run (used to show that a seeded
+    mutation is detected next to findings that are not listed yet)."""
+    path = os.environ.get("VERIF_EXTRA_FINDINGS")
+    if path:
+        with open(path) as f:
+            chk.findings += [x for x in json.load(f).get("findings", [])
+                             if x.get("property") == PID]
+
+
 def run(tier, seed):
     chk = vlib.Check(PID, LEVEL, tier, seed)
+    extra_findings(chk)
     chk.assumptions = [
         "URIs are identified by their path below the server's rsync base "
         "with scheme and host compared case-insensitively; every delta "
@@ -465,16 +493,16 @@ def run(tier, seed):
     trace_n, rej_n = run_and_validate(
         chk, nested_b, "nested", exclude=("IsolationPublished",))
     _, rej_iso = run_and_validate(
-        chk, nested_b[: (120 if quick else 1500)], "nested_iso",
-        revalidate=False)
+        chk, nested_b[: (120 if quick else 400)], "nested_iso",
+        revalidate=False, max_rejections=10)
     if "IsolationPublished" in expected_model_hits and not any(
             r["violated"] == "IsolationPublished" for r in rej_iso):
         vlib.log("note: the model violates IsolationPublished (nested "
                  "jails) but no executed behaviour did on the real code")
     # 4. spellings that differ in the scheme only
-    scheme = prepare(flat[: (60 if quick else 800)],
+    scheme = prepare(flat[: (60 if quick else 300)],
                      ["canon", "scheme", "canon", "host"], "scheme", seed)
-    run_and_validate(chk, scheme, "scheme")
+    run_and_validate(chk, scheme, "scheme", max_rejections=12)
 
     # coverage of the real actions: every request kind, accepted and
     # refused deltas must have occurred
@@ -509,6 +537,7 @@ def replay(path, seed):
         data = json.load(f)
     rp = data["replay"]
     chk = vlib.Check(PID, LEVEL, "replay", seed)
+    extra_findings(chk)
     run_and_validate(chk, [rp["behaviour"]], "replay",
                      exclude=tuple(rp.get("exclude", [])), revalidate=False)
     return chk.finish()
